@@ -114,6 +114,9 @@ func (c10) Gen(rs uint64, tier string, race bool) interface{} {
 	}
 	n := 1 + r.Intn(8)
 	l := 4 * (1 + r.Intn(6))
+	if c.Op == "bootstrap" && r.Chance(0.25) {
+		l = r.Range(1, 3) // floor(frac*L) reaches 0 (dyadic fractions: still exact)
+	}
 	for i := 0; i < n; i++ {
 		a.Names = append(a.Names, fmt.Sprintf("s%d", i))
 		a.Seqs = append(a.Seqs, genResidues(r, l, a.Alphabet, false, "-", 0.15))
